@@ -46,6 +46,17 @@ Lemma side_key_families_disjoint :
            (key_admit, key_glob); (key_admit, key_cidx)] = true.
 Proof. vm_compute. reflexivity. Qed.
 
+(* every key family the activation / revocation touches (keyed by gate-op code, first key seen in the solo and
+   single-fault runs) is cluster-visible under hybrid.DefaultConfig(): category 2 (shared) or 3 (shared+persistent).
+   A key that leaves the shared space (0 = node-local runtime cache, 1 = persistent + local cache) would make the claim,
+   the admission marker, the code record or the mapping invisible to the other nodes. *)
+Definition required_ops : list nat :=
+  [1; 2; 4; 5; 6; 7; 8; 9; 10; 11; 12; 13] ++ (if impl_use_claim then [3; 14] else []) ++ (if impl_use_admit then [16; 17] else []).
+Lemma side_key_families_cluster_visible :
+  forallb (fun p => Nat.eqb (snd p) 2 || Nat.eqb (snd p) 3) key_categories = true /\
+  forallb (fun op => existsb (fun p => Nat.eqb (fst p) op) key_categories) required_ops = true.
+Proof. vm_compute. split; reflexivity. Qed.
+
 (* the quota defaults are positive (a zero quota would reject every activation) *)
 Lemma side_quota_defaults_positive : 0 < DefaultMaxActiveCodesPerClient /\ 0 < DefaultMaxActiveMappingsPerClient.
 Proof. unfold DefaultMaxActiveCodesPerClient, DefaultMaxActiveMappingsPerClient. lia. Qed.
